@@ -176,4 +176,61 @@ example : (run init [.call 0, .call 1, .call 2, .cas 1, .cas 0, .body 1, .cas 2]
     (fun s => (s.applied, s.pc 0, s.pc 1, s.pc 2)) =
     some (1, .returnedErr, .returnedOk, .returnedErr) := by decide
 
+/-! ### why the election must be ONE read-modify-write (the shape of seeded change C14g) -/
+
+/-- The election split into a load and a later store (`if started.load() { err } else
+    { started.store(true) }`): a caller that has loaded `false` stores and runs regardless of what
+    happened in between. -/
+inductive SplitAct where
+  | call (t : Nat)
+  | load (t : Nat)
+  | store (t : Nat)
+  | body (t : Nat)
+  deriving DecidableEq, Repr
+
+structure SplitState where
+  base : State
+  /-- callers that have loaded `false` and not yet stored -/
+  sawFalse : Nat → Bool
+
+def splitStep (s : SplitState) : SplitAct → Option SplitState
+  | .call t => (step s.base (.call t)).map fun b => { s with base := b }
+  | .load t => match s.base.pc t with
+      | .electing =>
+          if s.sawFalse t then none
+          else if s.base.started then some { s with base := setPc s.base t .returnedErr }
+          else some { s with sawFalse := fun u => if u = t then true else s.sawFalse u }
+      | _ => none
+  | .store t => match s.base.pc t with
+      | .electing =>
+          if s.sawFalse t then
+            some { base := setPc { s.base with started := true, wins := s.base.wins + 1 } t .running,
+                   sawFalse := fun u => if u = t then false else s.sawFalse u }
+          else none
+      | _ => none
+  | .body t => (step s.base (.body t)).map fun b => { s with base := b }
+
+def splitRun (s : SplitState) : List SplitAct → Option SplitState
+  | [] => some s
+  | a :: as => match splitStep s a with
+    | none => none
+    | some s' => splitRun s' as
+
+/-- **split_election_elects_two.** With the load and the store as two steps, two callers that
+    both load before either stores are both elected and the block is applied twice — the
+    interleaving the tight-race phase of the `once` harness produces on the real code. -/
+theorem split_election_elects_two :
+    (splitRun ⟨init, fun _ => false⟩
+      [.call 0, .call 1, .load 0, .load 1, .store 0, .store 1, .body 0, .body 1]).map
+      (fun s => (s.base.wins, s.base.applied, s.base.pc 0, s.base.pc 1)) =
+    some (2, 2, .returnedOk, .returnedOk) := by decide
+
+/-- …while successive calls are still refused, which is why tests that call one after another
+    cannot see it. -/
+theorem split_election_sequential_ok :
+    (splitRun ⟨init, fun _ => false⟩
+      [.call 0, .load 0, .store 0, .body 0, .call 1, .load 1]).map
+      (fun s => (s.base.wins, s.base.applied, s.base.pc 0, s.base.pc 1)) =
+    some (1, 1, .returnedOk, .returnedErr) := by decide
+
 end Grevm.RunOnce
